@@ -79,6 +79,10 @@ func (ec *evalCtx) pkg() *types.Package {
 func (ec *evalCtx) concretise(tv TV, ty types.Type) TV {
 	c := ec.c
 	if tv.Const != nil {
+		if c.sc.ieeeFloats && isFloat64(ty) {
+			f, _ := new(big.Float).SetInt(tv.Const).Float64()
+			return TV{T: fpLit(f), Ty: ty}
+		}
 		if !isInteger(ty) {
 			ty = types.Typ[types.Int]
 		}
@@ -1230,6 +1234,12 @@ func (ec *evalCtx) convert(arg CExpr, ty types.Type) (TV, error) {
 	if _, isIface := under(ty).(*types.Interface); isIface {
 		return TV{T: c.makeIface(v.T, v.Ty), Ty: ty}, nil
 	}
+	if c.sc.ieeeFloats && isInteger(v.Ty) && isFloat64(ty) {
+		return TV{T: c.intToFloat(v.T, v.Ty), Ty: ty}, nil
+	}
+	if c.sc.ieeeFloats && isFloat64(v.Ty) && isInteger(ty) {
+		return TV{T: c.floatToInt(v.T, ty), Ty: ty}, nil
+	}
 	if isString(ty) && isSliceOfBytes(v.Ty) {
 		// the same term the executed conversion string(b) denotes (execConvert): a function of the bytes
 		// b currently holds
@@ -1250,6 +1260,13 @@ func (ec *evalCtx) pureCall(fn *types.Func, recv *TV, args []CExpr) (TV, error) 
 		// interface method invoked on an interface-typed receiver: key by the static receiver type
 		if _, isIface := under(recv.Ty).(*types.Interface); isIface {
 			key = "(" + types.TypeString(recv.Ty, nil) + ")." + fn.Name()
+		}
+	}
+	if c.sc.ieeeFloats && recv == nil && len(args) == 1 {
+		if v, err := ec.eval(args[0]); err == nil && v.Const == nil && !v.IsNil {
+			if t, ok := c.ieeeBuiltin(key, []Term{v.T}); ok {
+				return TV{T: t, Ty: sig.Results().At(0).Type()}, nil
+			}
 		}
 	}
 	con := c.v.findContract(key, c.fromPkg())
